@@ -262,7 +262,7 @@ Definition lm (tol : Qc) (m : res (list Qc)) (o : obs (list Qc)) : bool := res_m
             tot += tgt
             self.window_checks(c, x, y, out, fixed[j], fixed[j + 1], tgt, c["rt"], fail, "window %d" % j)
         got = sum(integ(c["rt"], x[fixed[0]:fixed[-1] + 1], out[fixed[0]:fixed[-1] + 1]), Fraction(0))
-        if abs(got - tot) > Fraction(1, 10 ** 9) * (1 + abs(tot)):
+        if abs(got - tot) > Fraction(1, 10 ** 9) * (1 + abs(tot) + sum(abs(Fraction(v)) for v in y[fixed[0]:fixed[-1] + 1])):
             fail("C01", "total-integral", "integral between first and last fixed point is %s, reference total %s" % (float(got), float(tot)))
         self.outside_checks(c, y, out, fixed, fail)
         if "out2" in o and all_finite(o["out2"]):
